@@ -21,7 +21,7 @@ var ev *evid.E
 func TestMain(m *testing.M) {
 	ev = evid.New("C12", "exploration",
 		"(a) selection: universe of 6 suites (17, 3, MD5/HMAC-MD5-128/AES, SHA1/HMAC-SHA256-128/AES, one with an unsupported integrity algorithm, one with confidentiality None); every "+
-			"ordered preference list of length 0..3 without repetition (157) x every advertised subset (64), advertised through chunked Get Channel Cipher Suites records in a seed-dependent "+
+			"ordered preference list of length 0..3, repetitions included (259), x every advertised subset (64), plus generated longer lists,, advertised through chunked Get Channel Cipher Suites records in a seed-dependent "+
 			"order; oracle: the Open Session Request seen by the BMC proposes the first preferred suite that is advertised (defaults 17 then 3; a single preference without any discovery "+
 			"request), or the no-supported-cipher-suite error and no Open Session Request. (b) confirmation: the BMC answers the proposal with every algorithm triple of the enumerated "+
 			"set and then completes the handshake consistently with its answer; oracle: a session is returned iff answered == proposed, and then carries exactly those algorithms. "+
@@ -40,19 +40,14 @@ var universe = []ref.Suite{
 }
 
 func prefLists() [][]int {
+	// every list of length 0..3 over the universe, repetitions included
 	out := [][]int{{}}
 	n := len(universe)
 	for a := 0; a < n; a++ {
 		out = append(out, []int{a})
 		for b := 0; b < n; b++ {
-			if b == a {
-				continue
-			}
 			out = append(out, []int{a, b})
 			for c := 0; c < n; c++ {
-				if c == a || c == b {
-					continue
-				}
 				out = append(out, []int{a, b, c})
 			}
 		}
@@ -291,6 +286,27 @@ func TestRandomConfirmation(t *testing.T) {
 		}
 	})
 	_ = ipmi.CipherSuite3
+}
+
+// TestRandomSelection: longer preference lists (up to 8 entries, duplicates
+// allowed) against generated advertised subsets.
+func TestRandomSelection(t *testing.T) {
+	ev.Check(t, "TestRandomSelection", ev.Pick(1500, 100000), func(t *rapid.T) {
+		n := rapid.IntRange(2, 8).Draw(t, "len")
+		pref := make([]int, n)
+		for i := range pref {
+			pref[i] = rapid.IntRange(0, len(universe)-1).Draw(t, "suite")
+		}
+		adv := rapid.IntRange(0, 63).Draw(t, "advertised")
+		msg, nt := runSelection(pref, adv, rapid.Uint64().Draw(t, "seed"))
+		ev.Eval()
+		if msg != "" {
+			t.Fatalf("%s", msg)
+		}
+		if nt {
+			ev.NonTrivial(fmt.Sprintf("rsel|%v|%d", pref, adv))
+		}
+	})
 }
 
 func TestCoverage(t *testing.T) {
